@@ -354,29 +354,39 @@ theorem C11_call_through_agreeing_proxy (w : World V) (n : Nat) (first : Nat →
 
 /-- **C11, "…or discovered by introspection".**  The headline WITHOUT an agreement hypothesis, for a proxy built
 by introspection.  `introspectedProxy` is `getRemoteObject(busName, path)` without `interfaces`: C15's code models
-of the exporter's `generateIntrospectionXML` and of the caller's `getInterfacesFromXML` (on any heap of interface
-objects and any `knownInterfaces` cache `known`), translated into this model's interface type.  Hypotheses, those of
-C15 `handler_gen_fresh`: the exported object's interfaces `cs` were declared through the `DBusInterface` API
-(`Declared`); their names and the three standard names are pairwise distinct; replacement is requested or none of
-these names is in the caller's cache (the stale-cache case is excluded: there the cached definition is used as it
-is, whatever it says).  The link between the two models of the exporter: this model's exported object at that path
-lists the same declared interfaces (`ho`).  Then the proxy exists, and every call through it that selects a
-non-standard interface (`i.name ∉ stdNames`; the standard three are answered by the handler itself) with the right
-number of arguments and a bound function satisfies the conclusion of the headline theorem. -/
+of the exporter's `generateIntrospectionXML` and of the caller's `getInterfacesFromXML`, run on ANY heap of interface
+objects, ANY `knownInterfaces` cache `known` and either value of `replaceKnownInterfaces`, translated into this model's
+interface type.  Hypotheses: the exported object's interfaces `cs` were declared through the `DBusInterface` API
+(`Declared`); their names and the three standard names are pairwise distinct; this model's exported object at that
+path lists the same declared interfaces (`ho`: the link between the two models of the exporter).  Then the proxy
+exists, with one interface per declared-or-standard interface, in order; and every call through it whose SELECTED
+interface `i` sits at a position `j` whose declaration `d` is `FreshOrSame` - the parse creates a new object for it
+(replacement requested, or the name not cached), or the caller's cache holds the SAME definition under that name (the
+state of a real process for `org.freedesktop.DBus.Properties`, registered at import, and for whatever it introspected
+before from a peer of the same revision) - and is not one of the three standard interfaces, satisfies the conclusion
+of the headline theorem.  What the hypothesis excludes is exactly a STALE cache entry for the selected interface with
+`replaceKnownInterfaces=False`: then the cached definition is used as it is (C15 `known_reused_unless_replaced`), the
+documented behaviour that seeded change C11d turns against explicit proxies.
+
+Not part of this theorem (see notes/C11.md): the proxy is the pure composition generate-then-parse, not the result of
+an `Introspect` call travelling through `run` (`World.introspect` is an opaque value); the by-name branch of
+`getRemoteObject` and the write-back of the cache for later introspections are not modelled. -/
 theorem C11_call_through_introspected_proxy (w : World V) (n : Nat) (first : Nat → Nat) (steps : List (Step V))
     (hq : (run w (Net.init n first) steps).Quiescent)
     {path : Intro.Str} {exported : List (Intro.Str × List Intro.Cached)} {cs : List Intro.Cached}
     (hobj15 : Intro.exportedGet? exported path = some cs) (hdecl : Intro.Declared cs)
     (hnames : ((Intro.decl cs).map (·.name)).Nodup)
     (heap : List Intro.Interface) (known : List (Intro.Str × Nat)) (replace : Bool)
-    (hfresh : replace = true ∨ ∀ d ∈ Intro.decl cs, Intro.kget? known d.name = none)
     (dest : Nat) (hpd : dest < n) (o : ExpObj)
     (hobj : lookupObj (String.ofList path) (w.exports dest) = some o)
     (ho : o.ifaces = (cs.map (·.iface)).map ifaceOfIntro) :
     ∃ px, introspectedProxy dest path exported heap known replace = some px ∧
+      px.ifaces.length = (Intro.decl cs).length ∧
       ∀ (a : Nat) (_ : a < n) (kw : Option String) (member : String) (args : List V) (i : Iface) (m : MethodDecl)
-        (f : Func),
-        proxyLookup kw member px.ifaces = some (i, m) → i.name ∉ stdNames → i.name ≠ "" →
+        (f : Func) (j : Nat) (d : Intro.Interface),
+        proxyLookup kw member px.ifaces = some (i, m) →
+        (Intro.decl cs)[j]? = some d → px.ifaces[j]? = some i → FreshOrSame heap known replace d →
+        i.name ∉ stdNames → i.name ≠ "" →
         args.length = m.nargs → o.resolveImpl i.name member = some f →
         ∀ (r : CallRec V), r ∈ ((run w (Net.init n first) steps).cl a).issued →
           (∃ r0, proxyResolve (.viaProxy px kw member args) = .ok r0 ∧ r = { r0 with serial := r.serial }) →
@@ -390,12 +400,12 @@ theorem C11_call_through_introspected_proxy (w : World V) (n : Nat) (first : Nat
             ((run w (Net.init n first) steps).cl a).completions.filter (complKey r.serial) =
               [(r.serial, outcomeOf (some m.sigOut) (replyOf w (.result m.sigOut m.nret res)))] ∧
             (Step.toClient dest (.now res) ∈ steps ∨ ∃ tok, Step.resolve dest tok res ∈ steps) := by
-  obtain ⟨px, hpx, hd, hp, hag⟩ :=
-    introspected_interfaces_agree hobj15 hdecl hnames heap known replace hfresh o ho dest
-  refine ⟨px, hpx, ?_⟩
-  intro a ha kw member args i m f hl hstd hname hn himpl r hr hfrom hno
+  obtain ⟨px, hpx, hd, hp, hlen, hag⟩ :=
+    introspected_position_agrees hobj15 hdecl hnames heap known replace o ho dest
+  refine ⟨px, hpx, hlen, ?_⟩
+  intro a ha kw member args i m f j d hl hdj hij hcond hstd hname hn himpl r hr hfrom hno
   have hagi : i.AgreesIn o := by
-    rcases hag i (proxyLookup_spec hl).1 with h | h
+    rcases hag j d i hdj hij hcond with h | h
     · exact h
     · exact absurd h hstd
   have hobj' : lookupObj px.path (w.exports px.dest) = some o := by rw [hd, hp]; exact hobj
@@ -427,11 +437,26 @@ wire, nothing buffered by any receiver and no unfired Deferred: a message-level 
 state has the same client logs, is quiescent, and therefore (`C11_end_to_end`) has every call issued to an attached
 client `Completed`: exactly one completion, exactly one answer, the invocation exactly once iff accepted.
 
-Missing for the unqualified name: (1) the instance of `WireCodec.Laws` for txdbus's codec - C03 proves
-`marshal_wellformed` and `parse_marshal` for its concrete message model with concrete bodies (hypotheses on the values:
-C01's `RepFields`, fuel, `SigNoNul`, size limits), which this model keeps abstract; the bridge "C03's well-formedness
-implies C04's `Spec.WellFormed`" is not a named theorem of either property; (2) the handshake before binary mode (C04
-`handoff`, C06/C07): `BNet.init` starts after it. -/
+Missing for the unqualified name:
+(1) the instance of `WireCodec.Laws` for txdbus's codec - C03 proves `marshal_wellformed` and `parse_marshal` for its
+    concrete message model with concrete bodies (hypotheses on the values: C01's `RepFields`, fuel, `SigNoNul`, size
+    limits), which this model keeps abstract; the bridge "C03's well-formedness implies C04's `Spec.WellFormed`" is not
+    a named theorem of either property; the only instances here are the example codecs below;
+(2) the handshake before binary mode (C04 `handoff`, C06/C07), `Hello`, messages to the bus itself: `BNet.init` starts
+    after them;
+(3) byte-level PROGRESS: `hq` (wires and receiver buffers empty) is assumed.  Proved: no receiver ever holds a complete
+    frame (`Sim.no_complete_frame_buffered`), and a read of everything queued empties the link (`Sim.read_all_empties_up`);
+    not proved: from every byte-level state some schedule of reads and firings reaches `BNet.Quiescent` (the byte-level
+    `quiescence_reachable`);
+(4) `hok` constrains what the run serialises (calls, replies, error texts, the bus's stamped copies) to the codec's
+    domain; nothing relates that domain to `World.encErr = none`, the model's own "this body encodes";
+(5) one `enc : Msg -> bytes` for every writer: the real bus forwards the sender's BODY bytes verbatim in the sender's
+    byte order (fixes/C11-01), a function of the raw message, and `Msg` has no byte order - no instance can describe a
+    run with a big-endian sender (the harness does run such senders, at message level);
+(6) `protocol.py` calls `rawDBusMessageReceived` INSIDE the framing loop, the model frames the whole read and then folds
+    the handlers (same order of handler calls; a handler cannot affect the framing of the same read in either);
+(7) `dec raw = none` is "ignore and continue" in the model, where the real exception leaves the remaining frames
+    buffered and drops the connection - unreachable inside the codec's domain, unspecified outside it. -/
 theorem C11_bytes_any_delivery_order_partial {α : Type} (C : WireCodec V) (Ok : Msg V → Prop) (hC : C.Laws Ok)
     (A : Txdbus.Proto.Auth α) (a0 : α) (w : World V) (n : Nat) (first : Nat → Nat) (bsteps : List (BStep V))
     (hok : ∀ m, m ∈ (brun C A w (BNet.init n first a0) bsteps).sent → Ok m)
@@ -464,6 +489,17 @@ theorem C11_bytes_any_delivery_order_partial {α : Type} (C : WireCodec V) (Ok :
   intro a ha r hr hd
   rw [(hlogs a).1] at hr
   exact C11_end_to_end w n first msteps hqm a ha r hr hd
+
+/-- **Nothing gets stuck in a receiver** (the proved half of byte-level progress): in every state of every byte-level
+run within the codec's domain, no receiver - the bus's protocol instance for a connection, or a client's - holds a
+complete frame in its buffer: whatever has been delivered completely has surfaced as a message. -/
+theorem bytes_nothing_stuck_in_a_receiver {α : Type} (C : WireCodec V) (Ok : Msg V → Prop) (hC : C.Laws Ok)
+    (A : Txdbus.Proto.Auth α) (a0 : α) (w : World V) (n : Nat) (first : Nat → Nat) (bsteps : List (BStep V))
+    (hok : ∀ m, m ∈ (brun C A w (BNet.init n first a0) bsteps).sent → Ok m) (c : Nat) :
+    ¬ Txdbus.Proto.Spec.hasFrame ((brun C A w (BNet.init n first a0) bsteps).busRx c).buffer ∧
+    ¬ Txdbus.Proto.Spec.hasFrame ((brun C A w (BNet.init n first a0) bsteps).cliRx c).buffer := by
+  obtain ⟨msteps, hs⟩ := bytes_run_simulated C Ok hC A a0 w n first bsteps hok
+  exact hs.no_complete_frame_buffered c
 
 /-! ## 4. what the completion is -/
 
@@ -605,6 +641,71 @@ example : ∃ cs, Intro.exportedGet? Intro.sampleExported "/a".toList = some cs 
     · exact ⟨"org.a.b".toList, [], rfl⟩
   · refine ⟨_, rfl, by decide, by decide, by decide⟩
 
+/-! ### `C11_call_through_introspected_proxy` instantiated as a whole
+
+Client 1 exports C15's sample object (interfaces `org.a.B` - `Foo(hh)`, `a_1` - and `org.a.b`) at `/a`, `Foo` bound to
+function 1; the caller's cache already holds `org.a.b` (same definition) and `replaceKnownInterfaces=False`; client 0
+builds the proxy by introspection and calls `Foo(3, 4)`; the run reaches quiescence.  Every hypothesis of the theorem
+is discharged by evaluation, and its conclusion is read off for this run. -/
+
+def exCA : Intro.Cached := match Intro.declare "org.a.B".toList Intro.sampleOps with | .ok c => c | .error _ => default
+def exCB : Intro.Cached := match Intro.declare "org.a.b".toList [] with | .ok c => c | .error _ => default
+def exCsA : List Intro.Cached := [exCA, exCB]
+def exObjA : ExpObj :=
+  { path := "/a",
+    classes := [{ ifaces := some ((exCsA.map (·.iface)).map ifaceOfIntro), attrs := [("dbus_Foo", ⟨1, none⟩)] }] }
+def exWorldA : World Nat :=
+  { exports := fun j => if j = 1 then [exObjA] else [],
+    introspect := fun _ _ => none, managed := fun _ _ => .ok 0, encErr := fun _ _ => none,
+    validErrorName := fun _ => true }
+def exHeapA : List Intro.Interface := (exCsA.map (·.iface)).drop 1
+def exKnownA : List (Intro.Str × Nat) := [("org.a.b".toList, 0)]
+def exPxA : Proxy := (introspectedProxy 1 "/a".toList Intro.sampleExported exHeapA exKnownA false).getD ⟨0, "", []⟩
+def exStepsA : List (Step Nat) :=
+  [.call 0 (.viaProxy exPxA none "Foo" [3, 4]), .toBus 0, .toClient 1 (.now (.value (.obj 0))), .toBus 1,
+   .toClient 0 .deferred]
+def exNetA : Net Nat := run exWorldA (Net.init 2 (fun _ => 1)) exStepsA
+
+def exIA : Iface := (exPxA.ifaces[0]?).getD ⟨"", []⟩
+def exMA : MethodDecl := ((exIA.method? "Foo")).getD ⟨"", "", "", 0, 0⟩
+def exRA : CallRec Nat := ((exNetA.cl 0).issued[0]?).getD ⟨0, 0, "", none, "", "", [], none⟩
+
+theorem exQuiescentA : exNetA.Quiescent := by
+  intro j hj
+  have hn : exNetA.n = 2 := by decide
+  rw [hn] at hj
+  match j, hj with
+  | 0, _ => decide
+  | 1, _ => decide
+
+/-- the theorem applied: `Foo` ran once on the exporter with `[3, 4]`, bound function 1; the caller completed once -/
+example : ∃ res,
+    (exNetA.cl 1).invocations.filter (invKey 0 1) =
+      [{ sender := some 0, serial := 1, path := "/a", iface := "org.a.B", member := "Foo", args := [3, 4], impl := 1 }] ∧
+    (exNetA.cl 0).completions.filter (complKey 1) =
+      [(1, outcomeOf (some exMA.sigOut) (replyOf exWorldA (.result exMA.sigOut exMA.nret res)))] := by
+  have hdecl : Intro.Declared exCsA := by
+    intro c hc
+    simp only [exCsA, List.mem_cons, List.not_mem_nil, or_false] at hc
+    rcases hc with rfl | rfl
+    · exact ⟨"org.a.B".toList, Intro.sampleOps, by decide⟩
+    · exact ⟨"org.a.b".toList, [], by decide⟩
+  obtain ⟨px, hpx, _, H⟩ := C11_call_through_introspected_proxy exWorldA 2 (fun _ => 1) exStepsA exQuiescentA
+    (path := "/a".toList) (exported := Intro.sampleExported) (cs := exCsA) (by decide) hdecl (by decide)
+    exHeapA exKnownA false 1 (by decide) exObjA (by decide) (by decide)
+  have hp : px = exPxA := by
+    have h : introspectedProxy 1 "/a".toList Intro.sampleExported exHeapA exKnownA false = some exPxA := by decide
+    rw [h] at hpx; injection hpx with e; exact e.symm
+  subst hp
+  obtain ⟨res, h1, _, h3, _⟩ := H 0 (by decide) none "Foo" [3, 4] exIA exMA ⟨1, none⟩ 0 exCA.iface
+    (by decide) (by decide) (by decide) (Or.inr (Or.inl (by decide))) (by decide) (by decide) (by decide) (by decide)
+    exRA (by decide) ⟨_, rfl, by decide⟩ (by intro h; simp [exStepsA] at h)
+  have hs : exRA.serial = 1 := by decide
+  have hn : exIA.name = "org.a.B" := by decide
+  rw [hs, hn] at h1
+  rw [hs] at h3
+  exact ⟨res, by simpa [exNetA] using h1, by simpa [exNetA] using h3⟩
+
 def exMixed : ExpObj :=
   { path := "/m",
     classes := [{ ifaces := none,
@@ -666,6 +767,63 @@ example : (∀ m, m ∈ exB.sent → m = exCallB) ∧ exB.Quiescent ∧ exB.drop
   subst this
   exact ⟨h2, h3, h4, h5, h6⟩
 
+/-- every message gets a 16-byte frame whose serial byte is a tag: kind, serial, stamped or not -/
+def tagOf : Msg Nat → Nat
+  | .call n sender _ _ _ _ _ _ => 4 * n + (if sender.isSome then 1 else 0)
+  | .reply _ rs sender _ _ => 4 * rs + 2 + (if sender.isSome then 1 else 0)
+
+def frameOf (t : Nat) : Txdbus.Bytes := [108, 1, 0, 1, 0, 0, 0, 0, UInt8.ofNat t, 0, 0, 0, 0, 0, 0, 0]
+
+def exC1 : Msg Nat := .call 1 none (some 2) "/o" (some "org.t.I") "echo" "v" [7]
+def exC2 : Msg Nat := .call 2 none (some 2) "/o" (some "org.t.I") "echo" "v" [9]
+def exR1 : Msg Nat := .reply 1 1 none (some 0) (.ret "v" [8])
+def exR2 : Msg Nat := .reply 2 2 none (some 0) (.ret "v" [10])
+/-- the domain of the example codec: the two calls, the two replies, and their copies stamped by the bus -/
+def exDomain : List (Msg Nat) :=
+  [exC1, exC1.withSender 0, exC2, exC2.withSender 0, exR1, exR1.withSender 2, exR2, exR2.withSender 2]
+
+def exCodec2 : WireCodec Nat :=
+  { enc := fun m => frameOf (tagOf m),
+    dec := fun raw => exDomain.find? (fun m => frameOf (tagOf m) == raw) }
+
+theorem exCodec2_laws : exCodec2.Laws (fun m => m ∈ exDomain) := by
+  constructor
+  · intro m hm
+    have : ∀ x, x ∈ exDomain → Txdbus.Proto.Spec.WellFormed (exCodec2.enc x) := by decide
+    exact this m hm
+  · intro m hm
+    have : ∀ x, x ∈ exDomain → exCodec2.dec (exCodec2.enc x) = some x := by decide
+    exact this m hm
+
+/-- client 0 writes two calls; the bus gets both frames in ONE read; client 2 (the exporter) gets both in one read and
+answers; the bus reads the replies as 5 bytes, then the rest; client 0 reads its two replies at once -/
+def exB2 : BNet Nat Unit :=
+  brun exCodec2 exAuth exWorld (BNet.init 3 (fun _ => 1) ())
+    [.call 0 (.viaProxy exProxy none "echo" [7]), .call 0 (.viaProxy exProxy none "echo" [9]),
+     .readBus 0 1000, .readClient 2 1000 [.now (.value (.obj 8)), .now (.value (.obj 10))],
+     .readBus 2 5, .readBus 2 1000, .readClient 0 1000 []]
+
+/-- `hok` and `hq` hold for this run, and its conclusion is not vacuous: both calls go to the attached client 2, which
+invoked `echo` twice (bound function 1) and answered; both completed with what was returned; two frames were cut off in
+one read three times. -/
+example : (∀ m, m ∈ exB2.sent → m ∈ exDomain) ∧ exB2.Quiescent ∧
+    (exB2.cl 0).completions = [(1, .single 8), (2, .single 10)] ∧
+    (exB2.cl 2).invocations.map (fun i => (i.sender, i.serial, i.args, i.impl)) =
+      [(some 0, 1, [7], 1), (some 0, 2, [9], 1)] := by
+  have h : exB2.sent = [exC1, exC2, exC1.withSender 0, exC2.withSender 0, exR1, exR2, exR1.withSender 2,
+        exR2.withSender 2] ∧ exB2.n = 3 ∧
+      (∀ j, j < 3 → exB2.upWire j = [] ∧ exB2.downWire j = [] ∧ (exB2.busRx j).buffer = [] ∧
+        (exB2.cliRx j).buffer = [] ∧ (exB2.cl j).exec = []) ∧
+      (exB2.cl 0).completions = [(1, .single 8), (2, .single 10)] ∧
+      (exB2.cl 2).invocations.map (fun i => (i.sender, i.serial, i.args, i.impl)) =
+        [(some 0, 1, [7], 1), (some 0, 2, [9], 1)] := by
+    decide +kernel
+  obtain ⟨h1, h2, h3, h4, h5⟩ := h
+  refine ⟨fun m hm => ?_, fun j hj => h3 j (by rw [h2] at hj; exact hj), h4, h5⟩
+  rw [h1] at hm
+  revert m
+  decide
+
 /-- The model of the bus BEFORE the repair (Net/OldBus.lean), with a re-encoding that raises for the body
 of a `v` call (the implementation: argument `(1, 2**40)`, sent as `(ix)`, re-inferred as `ai`): the call
 of client 0 is issued to an attached client, the network becomes quiescent, and the call is neither
@@ -700,5 +858,8 @@ end Txdbus.Net
 #print axioms Txdbus.Net.C11_call_through_introspected_proxy
 #print axioms Txdbus.Net.bytes_run_simulated
 #print axioms Txdbus.Net.C11_bytes_any_delivery_order_partial
+#print axioms Txdbus.Net.bytes_nothing_stuck_in_a_receiver
+#print axioms Txdbus.Net.exQuiescentA
+#print axioms Txdbus.Net.exCodec2_laws
 #print axioms Txdbus.Net.C11_returns_what_it_returned
 #print axioms Txdbus.Net.prefix_model_violates
